@@ -27,7 +27,7 @@ V_v2two == {"PASS", "FAIL"}
 V_v2one == {"PASS"}
 V_legacy == {"T", "F"}
 V_legacyone == {"T"}
-E_all == {"bare", "lp", "lph"}
+E_all == {"bare", "lp", "lph", "lpo"}
 E_one == {"bare"}
 NoDev == {}
 DevLegacy == {"legacySlowValidator"}
